@@ -103,6 +103,7 @@ func checkC02(c *Check) {
 	c.Expl = "Structural clauses of 'every accepted program is compiled completely', decided cell-wise by evaluating the checker's and the generator's operator tables abstractly (engine E2: partial evaluation of the Visit* methods over operator constants and operand type classes, with a typed model of ddptypes' predicates and of the llir builder): every cell the checker admits has a lowering that does not reach c.err/panic (R2.1), leaves the IR class the checker's result type maps to (R2.2) and builds only well-typed IR (R2.3); every operator/node enum is covered by the String(), checker and generator switches (R2.4); every runtime symbol the generator declares is defined by the C runtime, libc/libm or the generator itself (R2.5). Bounds: the type classes listed in coverage.classes; user-defined overloads lower to calls and are out of scope. Not decided: assignment/argument/return contexts, struct and generic lowering, 'LLVM accepts the module' as a whole."
 	checkC02Phis(c, L)
 	checkC02Returns(c, L)
+	checkC02StatementContexts(c, L)
 	checkStructTypesDeclaredBeforeUse(c, c.Rule("R2.9", "a Kombination type is declared in the module before its IR type is read", 1))
 	t := computeCheckerTables(L, c.Tier)
 	cells := computeAdmittedGenCells(L, t)
@@ -474,5 +475,120 @@ func checkStructTypesDeclaredBeforeUse(c *Check, r *Rule) {
 	})
 	if n == 0 {
 		r.Und("compiler.structTypes", token.NoPos, "no single-value read of the table of declared Kombination types found")
+	}
+}
+
+// R2.10: the statement contexts. For every pair (type of the target, type of the value) that the type checker admits in an
+// assignment and in a variable declaration - over the class representatives, primitive and not - VisitAssignStmt and
+// VisitVarDecl are evaluated (engine E2) and must reach neither c.err nor a panic. (The expression cells of R2.1 do not
+// cover these statements: a guard weakened in VisitAssignStmt sends a number assigned to a Variable into numericCast.)
+func checkC02StatementContexts(c *Check, L *Loaded) {
+	r := c.Rule("R2.10", "every admitted assignment and initialisation pair is lowered without an internal error", 40)
+	tier := "quick"
+	if c.Tier == "thorough" {
+		tier = "thorough"
+	}
+	t := computeCheckerTables(L, tier)
+	inC, mkC := newCheckerInterp(L)
+	keys, cells := t.computeContextCells(inC, mkC)
+	varIdent := func(d *DT) *Obj {
+		decl := newObj("ast.VarDecl")
+		decl.set("Type", TypeV{d})
+		id := newObj("ast.Ident")
+		id.set("Declaration", decl)
+		return id
+	}
+	type agg struct {
+		n   int
+		bad []string
+	}
+	groups := map[string]*agg{}
+	var order []string
+	_ = keys
+	type pair struct {
+		k             string
+		isAssign      bool
+		target, value *DT
+	}
+	var pairs []pair
+	for _, a := range t.Classes {
+		for _, b := range t.Classes {
+			pairs = append(pairs, pair{cellKey("ASSIGN (target, value)", a, b), true, a, b}, pair{cellKey("VARDECL (declared, initialiser)", a, b), false, a, b})
+		}
+	}
+	for _, pr := range pairs {
+		isAssign, isDecl := pr.isAssign, !pr.isAssign
+		cc := cells[pr.k]
+		if cc == nil {
+			continue
+		}
+		if adm, dec := cc.Admitted(); !dec || !adm {
+			continue
+		}
+		target, value := pr.target, pr.value
+		if target.Kind == "VOID" || value.Kind == "VOID" || target.Kind == "GENERIC" || value.Kind == "GENERIC" {
+			continue
+		}
+		in, mk := newGeneratorInterp(L)
+		var problems []string
+		runs := 0
+		for _, temp := range []bool{false, true} {
+			in.RunAll(32, func() {
+				cobj := mk()
+				var n *Obj
+				method := "VisitAssignStmt"
+				if isAssign {
+					n = newObj("ast.AssignStmt")
+					rhs := exprNode("Rhs", value)
+					rhs.set("temp", boolV(temp))
+					n.set("Rhs", rhs)
+					n.set("Var", varIdent(target))
+					n.set("VarType", TypeV{target})
+					n.set("RhsType", TypeV{value})
+				} else {
+					method = "VisitVarDecl"
+					n = newObj("ast.VarDecl")
+					n.set("Type", TypeV{target})
+					n.set("InitType", TypeV{value})
+					iv := exprNode("InitVal", value)
+					iv.set("temp", boolV(temp))
+					n.set("InitVal", iv)
+					n.set("name", StrV("v"))
+				}
+				in.CallFunc(L.Fn("src/compiler.(*compiler)."+method), cobj, []Val{n})
+				runs++
+				for _, e := range in.Events {
+					if e.Kind == "cerr" || e.Kind == "panic" {
+						problems = append(problems, in.L.Pos(e.Pos)+" "+e.Kind+": "+e.Msg)
+					}
+				}
+			})
+		}
+		gk := "ASSIGN"
+		if isDecl {
+			gk = "VARDECL"
+		}
+		gk += " (" + toGen(target).String() + " ← " + toGen(value).String() + ")"
+		g := groups[gk]
+		if g == nil {
+			g = &agg{}
+			groups[gk] = g
+			order = append(order, gk)
+		}
+		g.n++
+		if runs == 0 {
+			g.bad = append(g.bad, "not evaluated")
+		}
+		g.bad = append(g.bad, problems...)
+	}
+	sort.Strings(order)
+	for _, gk := range order {
+		g := groups[gk]
+		in := r.add(OK, gk, token.NoPos, "lowered without an internal error")
+		if len(g.bad) > 0 {
+			in.Status = Bad
+			in.Msg = "the type checker admits this pair but its lowering ends in an internal error (" + strings.Join(firstN(uniq(g.bad), 2), "; ") + "): the accepted program aborts with 'Unerwarteter Fehler'"
+		}
+		in.N = g.n
 	}
 }
